@@ -159,6 +159,22 @@ class _Sys:
                 red.register_forward_hook(hook)
                 self.known[id(red)] = (tag, weakref.ref(mon), key)
 
+    def note_births(self, tag, t):
+        """remember at which step each monitor object of a trainer was first seen (weak references only)"""
+        if tag not in self.trainers:
+            return
+        if not hasattr(self, "birth"):
+            self.birth = {}
+        for name in list(self.reg[tag]):
+            for _mn, mon in self.trainers[tag].named_monitors_of(name):
+                b = self.birth.get(id(mon))
+                if b is None or b[0]() is not mon:
+                    self.birth[id(mon)] = (weakref.ref(mon), t)
+
+    def born(self, mon):
+        b = getattr(self, "birth", {}).get(id(mon))
+        return b[1] if b is not None and b[0]() is mon else None
+
     def expected_names(self, tag, name):
         return (MON_NAMES[self.kind[tag]] | self.extra[tag][name]) - self.deleted[tag][name]
 
@@ -276,7 +292,17 @@ class LifecycleWorld(World):
             A.new_trainer("t0", cfg["t0"], cfg["v0"], cfg["t0_cells"])
         if reg.waived:
             return
+        # system C: the same layer(s) with only a T0 whose cells are registered at the same moments but never deleted and whose monitors are
+        # never touched - what every still-registered T0 cell must keep recording whatever happens to its sibling cells
+        with ctx.impl("build", facts) as reg:
+            Cc = _Sys(cfg, False)
+            Cc.new_trainer("t0", cfg["t0"], cfg["v0"], cfg["t0_cells"])
+        if reg.waived:
+            return
         ctx.log("config", cfg["layout"], cfg["t0"], cfg["t1"], cfg["t0_cells"], cfg["t1_cells"])
+        tstep = 0
+        A.note_births("t0", tstep)
+        Cc.note_births("t0", tstep)
         disruptive_seen = False
         nontrivial = False
         last = "init"
@@ -327,9 +353,13 @@ class LifecycleWorld(World):
                 with ctx.impl("layer step", dict(facts, mstdpet_overlap=overlap())) as reg:
                     A.forward_layers(op["seed"], op["p"])
                     Bc.forward_layers(op["seed"], op["p"])
+                    Cc.forward_layers(op["seed"], op["p"])
                 if reg.waived:
                     return
                 ctx.step(1, cfg["dt"])
+                tstep += 1
+                if has_t0 and "t0" in Cc.trainers:
+                    self._sibling_recording(ctx, dict(facts, after=last, mstdpet_overlap=overlap()), A, Cc)
                 # exactly-once observation per monitor
                 for sys_, sname in ((A, "A"), (Bc, "B")):
                     for tag in sys_.trainers:
@@ -378,6 +408,8 @@ class LifecycleWorld(World):
                 if has_t0:
                     with ctx.impl("trainer step", dict(facts, trainer="t0", after=last, mstdpet_overlap=overlap())) as reg:
                         A.call_trainer("t0")
+                        if "t0" in Cc.trainers:
+                            Cc.call_trainer("t0")
                     if reg.waived:
                         return
                 with ctx.impl("trainer step", dict(facts, trainer="t1", after=last, mstdpet_overlap=overlap())) as reg:
@@ -402,7 +434,7 @@ class LifecycleWorld(World):
             elif name == "layer_mode":
                 li = op["layer"] % len(A.layers)
                 with ctx.impl("layer.train/eval", facts):
-                    for s in (A, Bc):
+                    for s in (A, Bc, Cc):
                         s.layers[li].train(op["train"])
                         s.layer_training[li] = op["train"]
             elif name == "t1_clear":
@@ -416,6 +448,7 @@ class LifecycleWorld(World):
                 kind0 = op["kind"] if (cfg["delays"] or op["kind"] != "DelayAdjustedSTDP") else "STDP"
                 with ctx.impl("second trainer on the layer", dict(facts, kind=kind0)) as reg:
                     A.new_trainer("t0", kind0, op["variant"], [j for j in op["cells"] if j < len(A.cells)])
+                    Cc.new_trainer("t0", kind0, op["variant"], [j for j in op["cells"] if j < len(A.cells)])
                 kinds_t0.add(kind0)
                 ever["t0"] |= {j for j in op["cells"] if j < len(A.cells)}
                 disruptive_seen = True
@@ -428,6 +461,11 @@ class LifecycleWorld(World):
                     continue
                 with ctx.impl("register_cell", dict(facts, trainer="t0")):
                     A.register("t0", op["cell"])
+                    if nm in Cc.reg["t0"]:
+                        # re-registration of a cell deleted earlier: its recording restarts now, in the reference too
+                        Cc.trainers["t0"].del_cell(nm)
+                        del Cc.reg["t0"][nm]
+                    Cc.register("t0", op["cell"])
                 ever["t0"].add(op["cell"])
                 disruptive_seen = True
                 ctx.fault("register_cell")
@@ -477,6 +515,10 @@ class LifecycleWorld(World):
                                                      observe.StateMonitor.partialconstructor(reducer=observe.PassthroughReducer(dt, duration=0.0, inclusive=True), as_prehook=False,
                                                                                              train_update=True, eval_update=False, prepend=True),
                                                      True, dt=dt)
+                        Cc.trainers["t0"].add_monitor(nm, "spike_post", "neuron.spike",
+                                                      observe.StateMonitor.partialconstructor(reducer=observe.PassthroughReducer(dt, duration=0.0, inclusive=True), as_prehook=False,
+                                                                                              train_update=True, eval_update=False, prepend=True),
+                                                      True, dt=dt)
                     A.watch("t0")
                     disruptive_seen = True
                     ctx.fault("unique_monitor_replacement")
@@ -484,6 +526,8 @@ class LifecycleWorld(World):
                         ctx.probe("replace_monitor_while_shared")
                     ctx.log(name, {k: v for k, v in op.items() if k != "op"})
                     last = name
+                    A.note_births("t0", tstep)
+                    Cc.note_births("t0", tstep)
                     for sys_, sname in ((A, "A"), (Bc, "B")):
                         for tag in sys_.trainers:
                             check_listings(sys_, tag, name)
@@ -500,23 +544,29 @@ class LifecycleWorld(World):
             elif name == "t0_mode":
                 with ctx.impl("trainer.train/eval", dict(facts, trainer="t0")):
                     A.trainers["t0"].train(op["train"])
+                    Cc.trainers["t0"].train(op["train"])
                 A.training["t0"] = op["train"]
+                Cc.training["t0"] = op["train"]
                 ctx.fault("mode_flap")
             elif name == "t0_clear":
                 with ctx.impl("trainer.clear", dict(facts, trainer="t0")):
                     A.trainers["t0"].clear()
+                    Cc.trainers["t0"].clear()
                 disruptive_seen = True
                 ctx.fault("trainer_clear")
             elif name == "drop_t0":
                 # drop the last reference to the trainer and collect
                 del A.trainers["t0"]
-                for d in (A.kind, A.reg, A.extra, A.deleted, A.training):
+                del Cc.trainers["t0"]
+                for d in (A.kind, A.reg, A.extra, A.deleted, A.training, Cc.kind, Cc.reg, Cc.extra, Cc.deleted, Cc.training):
                     d.pop("t0", None)
                 gc.collect()
                 disruptive_seen = True
                 ctx.fault("trainer_collected_while_registered")
             ctx.log(name, {k: v for k, v in op.items() if k != "op"})
             last = name
+            A.note_births("t0", tstep)
+            Cc.note_births("t0", tstep)
             # ---------------- invariants after every op
             for sys_, sname in ((A, "A"), (Bc, "B")):
                 for tag in sys_.trainers:
@@ -552,6 +602,32 @@ class LifecycleWorld(World):
                         ctx.judged += 1
                         if v is None or not torch.equal(v.bool(), cell.connection.synspike.bool()):
                             ctx.fail("monitor_redirected", dict(facts, trainer=tag, system=sname, monitor="spike_pre"), f"{tag}/{nm}.spike_pre does not hold its own cell's presynaptic spikes")
+
+    @staticmethod
+    def _sibling_recording(ctx, facts, A, Cc):
+        """every cell still registered with T0 holds, in each of the trainer's own monitors, what the same cell holds in the reference
+        system whose T0 never lost a cell or a monitor (in a helper so that no local keeps a trainer / monitor alive)"""
+        kind = A.kind["t0"]
+        for nm in A.reg["t0"]:
+            if nm not in Cc.reg["t0"]:
+                continue
+            ma, mc = dict(A.trainers["t0"].named_monitors_of(nm)), dict(Cc.trainers["t0"].named_monitors_of(nm))
+            # a pooled monitor kept alive by a cell the reference never lost has a longer history, and some monitors (eligibility) are fed by
+            # the cell's other monitors: the cell is comparable only when every one of its monitors is as old as its counterpart
+            if any(m in ma and m in mc and (A.born(ma[m]) is None or A.born(ma[m]) != Cc.born(mc[m])) for m in MON_NAMES[kind]):
+                ctx.probe("sibling_reference_not_comparable")
+                continue
+            for mn in sorted(MON_NAMES[kind]):
+                if mn not in ma or mn not in mc or mn in A.deleted["t0"][nm]:
+                    continue
+                va, vc = ma[mn].peek(), mc[mn].peek()
+                ctx.judged += 1
+                same = (va is None) == (vc is None) and (va is None or (va.shape == vc.shape and bool(((va == vc) | ((va != va) & (vc != vc))).all())))
+                if not same:
+                    if ctx.fail("isolation", dict(facts, which="recording", monitor=mn, t0_alive=True),
+                                f"T0 cell {nm}: monitor {mn} holds {None if va is None else va.flatten()[:4].tolist()} but {None if vc is None else vc.flatten()[:4].tolist()} "
+                                f"in the reference system where no sibling cell / monitor was ever removed (last op {facts.get('after')})"):
+                        return
 
     @staticmethod
     def _cell_shares_monitor(sys_, tag, nm):
